@@ -119,7 +119,7 @@ def sample_lines(path, k=5, step=997, maxlen=600):
 
 
 def pure_check(pid, tier, seed, gen_units, props_file, cmd, quick_args, thorough_args, describe,
-               pre_prove=None, assumptions=(), keys=None):
+               pre_prove=None, assumptions=(), keys=None, vt=None):
     """Common flow of the properties whose code is regenerated by the translator:
     harness (Go) -> cases; prove; oracle compares Go results with the generated definitions (GEN lines)
     and with the hand-written specification (SPEC lines = concrete violations)."""
@@ -128,15 +128,27 @@ def pure_check(pid, tier, seed, gen_units, props_file, cmd, quick_args, thorough
     mm = cases + ".mm"
     try:
         with vlib.Lock():
-            okb, blog, exe = vlib.go_build("pure", "pure")
+            if vt:
+                okb, blog, exe = vlib.go_build("vt", "vt.test", test=True)
+            else:
+                okb, blog, exe = vlib.go_build("pure", "pure")
         if not okb:
             res.tie_broken.append("harness does not build against /repo: " + blog[-800:])
             return res.finish()
+
+        def harness(args):
+            if vt:
+                env = dict(os.environ)
+                env.update({"VT_OUT": cases, "VT_SEED": str(seed)})
+                env.update(args)
+                return vlib.run([exe, "-test.run", vt, "-test.count=1"], env=env, timeout=3000)
+            return vlib.run([exe, cmd, "-seed", str(seed), "-out", cases] + args, timeout=3000)
+
         # a first harness run is needed before proving when generated data come from it
         deep = (tier == "thorough")
-        rc, out = vlib.run([exe, cmd, "-seed", str(seed), "-out", cases] + (thorough_args if deep else quick_args), timeout=3000)
+        rc, out = harness(thorough_args if deep else quick_args)
         if rc != 0:
-            res.tie_broken.append("pure harness failed: " + out[-800:])
+            res.tie_broken.append("harness run failed: " + out[-800:])
             return res.finish()
         with vlib.Lock():
             if pre_prove:
@@ -145,7 +157,7 @@ def pure_check(pid, tier, seed, gen_units, props_file, cmd, quick_args, thorough
             flavour = oracles(res, gen_ok)
         if res.tie_broken and not deep:
             # proof or translation broken: search with the larger budget
-            rc, out = vlib.run([exe, cmd, "-seed", str(seed), "-out", cases] + thorough_args, timeout=3000)
+            rc, out = harness(thorough_args)
             deep = True
         summ = {}
         if flavour:
@@ -258,7 +270,34 @@ def check_C15(tier, seed):
     return res.finish()
 
 
-CHECKS = {"C16": check_C16, "C15": check_C15}
+# =============================================================== C17
+def check_C17(tier, seed):
+    def describe(tag, why):
+        return why
+    res = pure_check("C17", tier, seed, ["GenBackoff.v"], "Props/C17.v", "c17",
+                     {"VT_N": "2000"}, {"VT_N": "40000", "VT_EXHAUSTIVE": "1"}, describe, vt="TestC17$",
+                     assumptions=["CalculateBackoff is modelled over exact rationals (math.Pow as exact power; NaN/Inf do not exist there: the math.IsNaN "
+                                  "branch is translated to false); Go's float64 evaluation is compared with a slack of relative 2^-40 plus 2 ns",
+                                  "the random draw rand.Float64() is a parameter 0 <= r < 1 of the generated function; it is not observable in Go, so the "
+                                  "generated function is compared value for value only for Jitter = 0, and through the bounds otherwise",
+                                  "configurations: InitialBackoff, MaxBackoff, Multiplier >= 0, 0 <= Jitter <= 1, attempt >= 0, MaxAttempts >= 0 "
+                                  "(a negative MaxAttempts behaves like 0 = unbounded in the code; outside the statement)",
+                                  "RetryWithBackoff: hand-written loop model retry_loop, compared with the real function under testing/synctest virtual time "
+                                  "(invocation counts, result class, wait durations); the combination with a CircuitBreaker inside RetryConfig is not modelled",
+                                  "oracle shortcuts for attempt > 200 (base = MaxBackoff when Multiplier >= 3/2 and Initial >= 1 ns) are part of the trusted glue"],
+                     keys="B init max mult jitter attempt result | K thr cooldown n {dt fails result invoked} | R max init maxb mult jit cancel_before n {res cancel_in_wait} '|' invocations result waits")
+    if isinstance(res, int):
+        return res
+    res.coverage["rule"] = ("B: CalculateBackoff on a lattice of configurations (Initial/Max from 0 to MaxInt64, Multiplier 0..10, Jitter 0..1) x attempt "
+                            "numbers 0..MaxInt64, three draws each, plus seeded random configurations; K: random CircuitBreaker call sequences under virtual "
+                            "time with waits at cooldown-1/cooldown/cooldown+1; R: RetryWithBackoff under virtual time with scripted outcomes and cancellations. "
+                            "distinct_nontrivial = distinct behaviour classes reached (jitter/no-jitter/huge-attempt; breaker opened/rejected/stayed closed; "
+                            "retry result kinds)")
+    res.coverage["exhaustive"] = False
+    return res.finish()
+
+
+CHECKS = {"C16": check_C16, "C15": check_C15, "C17": check_C17}
 
 
 def replay(pid, path):
